@@ -8,8 +8,10 @@ Model of the metadata-refresh side of C15: `scylla/src/cluster/state.rs`
                                     `known_nodes` absent from the new one; recreated = hosts present in both whose `Arc<Node>`
                                     differs; then `TabletsInfo::perform_maintenance(keyspaces, removed, new_known_nodes, recreated)`.
 * `refresh`                       ← `ClusterState::new_updated` / `new_with_updated_topology` (205-270), tablets part.
-* `learn`                         ← `ClusterState::update_tablets` (647-675): `Tablet::from_raw_tablet` against the current
-                                    `known_nodes`, then `TabletsInfo::add_tablet`.
+* `learn`                         ← one iteration of `ClusterState::update_tablets` (647-675): `Tablet::from_raw_tablet` against
+                                    the current `known_nodes`, then `TabletsInfo::add_tablet`.
+* `learnBatch`                    ← `ClusterState::update_tablets` itself: the `for (table, raw_tablet) in raw_tablets` loop over
+                                    ONE BATCH, in order, with the translator closure over `self.known_nodes` built once.
 
 A known node is the model `Node` (host id, datacenter, allocation identity `gen`) plus the fields
 `calculate_new_topology` compares (rack, address, enabled).  `known_nodes` is a `HashMap`: an association list
@@ -96,6 +98,20 @@ def translator (k : Known) (id : Nat) : Option Node := (alGet id k).map (·.node
 /-- `ClusterState::update_tablets` for one tablet; `false` = `add_tablet` panicked (ill-formed tablet only) -/
 def learn (cs : CState) (spec : String × String) (first last : Int) (raw : List (Nat × Nat)) : CState × Bool :=
   let r := cs.info.addTablet spec (Tablet.fromRaw first last raw (translator cs.known))
+  ({ cs with info := r.1 }, r.2)
+
+/-- one raw tablet of a batch: table, token range, raw replicas -/
+abbrev RawItem := (String × String) × Int × Int × List (Nat × Nat)
+
+/-- the loop body of `update_tablets` on the tablet map, with the translator built before the loop -/
+def learnItem (tr : Nat → Option Node) (acc : Info × Bool) (it : RawItem) : Info × Bool :=
+  let r := acc.1.addTablet it.1 (Tablet.fromRaw it.2.1 it.2.2.1 it.2.2.2 tr)
+  (r.1, acc.2 && r.2)
+
+/-- `ClusterState::update_tablets`: every tablet of the batch, in the order of the batch (later tablets of the same
+batch overwrite earlier ones they overlap); `false` = some `add_tablet` panicked (ill-formed tablets only) -/
+def learnBatch (cs : CState) (batch : List RawItem) : CState × Bool :=
+  let r := batch.foldl (learnItem (translator cs.known)) (cs.info, true)
   ({ cs with info := r.1 }, r.2)
 
 end ScyllaVerif.TabletsRefresh
